@@ -242,8 +242,12 @@ fn new_encoder(depth: ColorDepth) -> TTYEncoder {
 
 /// Drive the real encoder for one colour in one role; the emitted bytes land in `out`.
 fn emit(enc: &mut TTYEncoder, out: &mut Vec<u8>, role: Role, c: [u8; 3]) -> Result<(), String> {
+    emit_rgba(enc, out, role, [c[0], c[1], c[2], 255])
+}
+
+fn emit_rgba(enc: &mut TTYEncoder, out: &mut Vec<u8>, role: Role, c: [u8; 4]) -> Result<(), String> {
     out.clear();
-    let rgba = RGBA::new(c[0], c[1], c[2], 255);
+    let rgba = RGBA::new(c[0], c[1], c[2], c[3]);
     let cmd = match role {
         Role::Fg => TerminalCommand::Face(Face { fg: Some(rgba), ..Face::default() }),
         Role::Bg => TerminalCommand::Face(Face { bg: Some(rgba), ..Face::default() }),
@@ -532,6 +536,73 @@ fn sweep(pal: &Palette, samples: &Samples, role: Role, depth: ColorDepth, values
         .reduce(Acc::new, Acc::merge)
 }
 
+/// One encoder, two emissions: `(first role, first colour)` then `(role, colour)`; the second one is judged
+/// exactly like an emission of a fresh encoder. First colours: the colour itself, its neighbour (blue
+/// channel +-1) and the colour at half opacity; colours: the 16^3 lattice with channels in {0, 17, .., 255}; all 25 ordered role pairs.
+/// Returns (evaluations, failures as (key, count, witness, detail of the smallest failing case)).
+fn sweep_history(pal: &Palette, depth: ColorDepth) -> (u64, Vec<(String, u64, Value, String)>) {
+    let values: Vec<u8> = (0..16u32).map(|v| (v * 17) as u8).collect();
+    let per_row: Vec<(u64, BTreeMap<String, (u64, Value, String)>)> = values
+        .par_iter()
+        .map(|&r| {
+            let mut evals = 0u64;
+            let mut fails: BTreeMap<String, (u64, Value, String)> = BTreeMap::new();
+            let mut out = Vec::with_capacity(32);
+            for &g in &values {
+                for &b in &values {
+                    let c = [r, g, b];
+                    for first_c in [[r, g, b, 255], [r, g, b ^ 1, 255], [r, g, b, 128]] {
+                        for first_role in ALL_ROLES {
+                            for role in ALL_ROLES {
+                                if role == Role::Ul && depth == ColorDepth::Gray {
+                                    continue;
+                                }
+                                evals += 1;
+                                let mut enc = new_encoder(depth);
+                                let _ = catch(|| emit_rgba(&mut enc, &mut out, first_role, first_c));
+                                if let Err(f) = eval_once(pal, &mut enc, &mut out, role, depth, c, false) {
+                                    let key = format!("{}:{}:after-{}:{}", role.name(), depth_name(depth), first_role.name(), f.kind);
+                                    let e = fails.entry(key).or_insert_with(|| {
+                                        let mut w = witness(role, depth, c);
+                                        w["before"] = json!([[first_role.name(), hex_color([first_c[0], first_c[1], first_c[2]]), first_c[3]]]);
+                                        (0, w, String::new())
+                                    });
+                                    e.0 += 1;
+                                }
+                            }
+                        }
+                    }
+                }
+            }
+            (evals, fails)
+        })
+        .collect();
+    let mut evals = 0;
+    let mut all: BTreeMap<String, (u64, Value, String)> = BTreeMap::new();
+    for (n, fails) in per_row {
+        evals += n;
+        for (k, v) in fails {
+            match all.get_mut(&k) {
+                None => {
+                    all.insert(k, v);
+                }
+                Some(e) => e.0 += v.0,
+            }
+        }
+    }
+    let out = all
+        .into_iter()
+        .map(|(k, (n, w, _))| {
+            let detail = match replay(&w) {
+                Ok((_, text)) => text,
+                Err(e) => e,
+            };
+            (k, n, w, detail)
+        })
+        .collect();
+    (evals, out)
+}
+
 /// Check monotonicity of grey level in luma from the per-level luma spans of a complete sweep.
 fn monotone_failures(acc: &Acc) -> Vec<(f64, [u8; 3], [u8; 3], String)> {
     let mut out = vec![];
@@ -644,7 +715,18 @@ pub fn run(ctx: &Ctx) -> Result<Report, String> {
             );
         }
     }
+    // one encoder used for two emissions in a row
+    let mut history_evals = 0u64;
+    for depth in depths {
+        let (n, fails) = sweep_history(&pal, depth);
+        history_evals += n;
+        for (key, count, w, detail) in fails {
+            viol.add(key, format!("{count} two-emission histories fail; first: {detail}"), w);
+        }
+    }
+    evals += history_evals;
     let mut r = Report::new("exploration");
+    r.set("two_emission_histories", history_evals);
     r.set("evaluations", evals)
         .set("distinct_nontrivial", nontrivial)
         .set(
@@ -682,8 +764,19 @@ pub fn replay(w: &Value) -> Result<(bool, String), String> {
     let pal = Palette::new();
     let mut enc = new_encoder(depth);
     let mut out = Vec::new();
+    let mut before = String::new();
+    if let Some(list) = w.get("before").and_then(|v| v.as_array()) {
+        // emissions made on the same encoder before the judged one
+        for item in list {
+            let r0 = item[0].as_str().and_then(Role::from_name).ok_or("bad role in before")?;
+            let c0 = item[1].as_str().and_then(parse_hex).ok_or("bad color in before")?;
+            let a0 = item[2].as_u64().unwrap_or(255) as u8;
+            let _ = catch(|| emit_rgba(&mut enc, &mut out, r0, [c0[0], c0[1], c0[2], a0]));
+            before.push_str(&format!("after {} alpha {} as {} (emitted {}) on the same encoder: ", hex_color(c0), a0, r0.name(), crate::engine::util::esc(&out)));
+        }
+    }
     let first = eval_once(&pal, &mut enc, &mut out, role, depth, c, true);
-    let bytes1 = crate::engine::util::esc(&out);
+    let bytes1 = format!("{before}{}", crate::engine::util::esc(&out));
     if let Some(c2) = w.get("color2").and_then(|v| v.as_str()).and_then(parse_hex) {
         // monotonicity witness: colour 1 is brighter (by luma) than colour 2 yet shown darker
         let mut enc = new_encoder(depth);
